@@ -4,6 +4,9 @@ theories/Spec/BV.vos theories/Spec/BV.vok theories/Spec/BV.required_vos: theorie
 theories/Spec/Eval.vo theories/Spec/Eval.glob theories/Spec/Eval.v.beautified theories/Spec/Eval.required_vo: theories/Spec/Eval.v theories/Model/Expr.vo
 theories/Spec/Eval.vio: theories/Spec/Eval.v theories/Model/Expr.vio
 theories/Spec/Eval.vos theories/Spec/Eval.vok theories/Spec/Eval.required_vos: theories/Spec/Eval.v theories/Model/Expr.vos
+theories/Spec/GuardSem.vo theories/Spec/GuardSem.glob theories/Spec/GuardSem.v.beautified theories/Spec/GuardSem.required_vo: theories/Spec/GuardSem.v theories/Model/ValueSummary.vo
+theories/Spec/GuardSem.vio: theories/Spec/GuardSem.v theories/Model/ValueSummary.vio
+theories/Spec/GuardSem.vos theories/Spec/GuardSem.vok theories/Spec/GuardSem.required_vos: theories/Spec/GuardSem.v theories/Model/ValueSummary.vos
 theories/Spec/System.vo theories/Spec/System.glob theories/Spec/System.v.beautified theories/Spec/System.required_vo: theories/Spec/System.v theories/Spec/Eval.vo
 theories/Spec/System.vio: theories/Spec/System.v theories/Spec/Eval.vio
 theories/Spec/System.vos theories/Spec/System.vok theories/Spec/System.required_vos: theories/Spec/System.v theories/Spec/Eval.vos
@@ -13,6 +16,9 @@ theories/Model/EvalImpl.vos theories/Model/EvalImpl.vok theories/Model/EvalImpl.
 theories/Model/Expr.vo theories/Model/Expr.glob theories/Model/Expr.v.beautified theories/Model/Expr.required_vo: theories/Model/Expr.v theories/Spec/BV.vo
 theories/Model/Expr.vio: theories/Model/Expr.v theories/Spec/BV.vio
 theories/Model/Expr.vos theories/Model/Expr.vok theories/Model/Expr.required_vos: theories/Model/Expr.v theories/Spec/BV.vos
+theories/Model/ValueSummary.vo theories/Model/ValueSummary.glob theories/Model/ValueSummary.v.beautified theories/Model/ValueSummary.required_vo: theories/Model/ValueSummary.v theories/Spec/Eval.vo theories/Model/EvalImpl.vo
+theories/Model/ValueSummary.vio: theories/Model/ValueSummary.v theories/Spec/Eval.vio theories/Model/EvalImpl.vio
+theories/Model/ValueSummary.vos theories/Model/ValueSummary.vok theories/Model/ValueSummary.required_vos: theories/Model/ValueSummary.v theories/Spec/Eval.vos theories/Model/EvalImpl.vos
 theories/Proofs/BVLemmas.vo theories/Proofs/BVLemmas.glob theories/Proofs/BVLemmas.v.beautified theories/Proofs/BVLemmas.required_vo: theories/Proofs/BVLemmas.v theories/Spec/BV.vo
 theories/Proofs/BVLemmas.vio: theories/Proofs/BVLemmas.v theories/Spec/BV.vio
 theories/Proofs/BVLemmas.vos theories/Proofs/BVLemmas.vok theories/Proofs/BVLemmas.required_vos: theories/Proofs/BVLemmas.v theories/Spec/BV.vos
